@@ -479,10 +479,10 @@ def cc_part(ctx, d):
 
 def pv_part(ctx, d):
     """Schedules with Config.PreVote (CheckQuorum in half of them): validated against RaftPV
-    (CheckQuorum angelically) and monitored; those that also call TransferLeader are monitored only."""
+    (CheckQuorum and leadership transfer angelically) and monitored."""
     batches = [(9000000, 250, 400)] if ctx.tier == "quick" else [(9000000, 10000, 400), (9500000, 200, 3000)]
     tot = ev = leaders = 0
-    vok = vev = vpre = vresp = vcq = vsd = vleased = 0
+    vok = vev = vpre = vresp = vcq = vsd = vleased = vtl = vtn = vdrop = 0
     viol = None
     bi = 0
     for first, count, nev in batches:
@@ -516,6 +516,9 @@ def pv_part(ctx, d):
                     vcq += int(kv.get("checkquorum", 0))
                     vsd += int(kv.get("stepdowns", 0))
                     vleased += int(kv.get("leased", 0))
+                    vtl += int(kv.get("transfer", 0))
+                    vtn += int(kv.get("timeoutnow", 0))
+                    vdrop += int(kv.get("dropped", 0))
                 elif t[2] == "FAIL" and dev is None:
                     dev = (t[1], line)
             for line in (b / "monitor.txt").read_text().splitlines():
@@ -565,6 +568,7 @@ def pv_part(ctx, d):
     stats = dict(pv_validated_schedules=vok, pv_validated_events=vev, pv_precandidacies_validated=vpre,
                  pv_prevote_responses_delivered=vresp,
                  pv_checkquorum_schedules_validated=vcq, pv_checkquorum_stepdowns=vsd, pv_checkquorum_vote_requests_ignored_in_lease=vleased,
+                 pv_transfer_schedules_validated=vtl, pv_timeoutnow_delivered=vtn, pv_proposals_dropped_during_transfer=vdrop,
                  pv_schedules=tot, pv_events=ev, pv_terms_with_a_leader=leaders,
                  pv_scope="; ".join("%d schedules x %d events" % (c, n) for _, c, n in batches))
     return stats, viol, None
@@ -646,7 +650,7 @@ def run(ctx):
         membership_change_exploration=dict(
             (k, v) for k, v in stats.items() if k.startswith("cc_")) or None,
         prevote_checkquorum_monitoring=dict((k, v) for k, v in stats.items() if k.startswith("pv_")) or None,
-        prevote_checkquorum_note="schedules with Config.PreVote = true (pre-vote responses are often kept in flight and re-delivered late; small election timeouts in half), half of them with Config.CheckQuorum too: validated event by event against the PreVote model RaftPV.exec_pv by the extracted check_step_pv (sound w.r.t. pxstep; the safety theorems C15_pv_* cover pxreachable) and counted in evaluations.  CheckQuorum is covered ANGELICALLY: a tick may be the leader's step-down (event PvStepDown) and a delivered MsgVote/MsgPreVote may be ignored altogether (leader lease) - the model does not say when (no election clock), so CheckQuorum's liveness is not checked, its safety is (every choice is a step of pxstep).  A third of the CheckQuorum schedules also call TransferLeader: outside the model, MONITORED only (tracepv skips them); the safety predicates are evaluated on the observed states of all schedules (raftrun monitor)",
+        prevote_checkquorum_note="schedules with Config.PreVote = true (pre-vote responses are often kept in flight and re-delivered late; small election timeouts in half), half of them with Config.CheckQuorum too: validated event by event against the PreVote model RaftPV.exec_pv by the extracted check_step_pv (sound w.r.t. pxstep; the safety theorems C15_pv_* cover pxreachable) and counted in evaluations.  CheckQuorum is covered ANGELICALLY: a tick may be the leader's step-down (event PvStepDown) and a delivered MsgVote/MsgPreVote may be ignored altogether (leader lease) - the model does not say when (no election clock), so CheckQuorum's liveness is not checked, its safety is (every choice is a step of pxstep).  A third of the CheckQuorum schedules also call RawNode.TransferLeader: covered angelically too (a leader may send MsgTimeoutNow at any time and may drop a proposal, any node may forward MsgTransferLeader; the receiver of MsgTimeoutNow, if a follower, campaigns for real at once without pre-vote) and validated; the safety predicates are evaluated on the observed states of all schedules (raftrun monitor)",
         membership_change_note="schedules with ProposeConfChange (add/remove a voter, joint add+remove with automatic leave; applied when committed) are (a) validated event by event against the membership-change model RaftCC.exec_cc by the extracted check_step_cc (exact equality of term/vote/commit/role/lead/log AND of the node's configuration; sound w.r.t. RaftCC.cxstep) — these events are counted in evaluations — and (b) monitored: the safety predicates are evaluated on the observed states.  The SAFETY theorems cover such runs only inside a family of pairwise-intersecting configurations (C15_cc_*_partial); the general chain argument of joint consensus is not proved.  A quarter of the schedules also add learners: outside the model, monitored only (tracecc skips them)",
         correspondence="(D) quorum.{MajorityConfig,JointConfig}.{CommittedIndex,VoteResult} (built from VERIF_REPO working tree) vs extracted Gallina majority_/joint_ functions, compared on every case; (V) raft.RawNode + MemoryStorage (built from VERIF_REPO) vs extracted check_step on every event",
     ))
